@@ -277,6 +277,15 @@ uint64_t __g_vec_b;   /* ghost: arbitrary-but-fixed byte index observed by the c
 
 /* ------------------------------------------------------------------ std::string value model (same shape as vector<char>;
    p[n] is NOT required to be a NUL: c_str() users must go through str_cstr) */
+/* storage size of a string of n characters: exact by default.  Bounded groups may ask for constant-size storage
+   (-DCXX_FIXED_STORAGE, with -DCXX_VEC_CAP=<bytes>): CBMC bit-blasts small constant-size arrays directly, while objects of
+   symbolic size go through the array theory (measured: 18M clauses vs. a fraction of that).  Exceeding the capacity is a
+   MODEL-BOUND failure (undecided), never a verdict. */
+#ifdef CXX_FIXED_STORAGE
+static inline uint64_t cxx_str_bytes(uint64_t n) { CXX_MODEL_BOUND(n + 1 <= CXX_VEC_CAP); return CXX_VEC_CAP; }
+#else
+static inline uint64_t cxx_str_bytes(uint64_t n) { return n + 1; }
+#endif
 #define CXX_STR() \
   static inline str str_from_n(const char *s, uint64_t n) \
   __CPROVER_requires(n == 0 || __CPROVER_r_ok(s, n)) \
@@ -284,7 +293,7 @@ uint64_t __g_vec_b;   /* ghost: arbitrary-but-fixed byte index observed by the c
   __CPROVER_assigns() \
   __CPROVER_ensures(__CPROVER_return_value.n == n && __CPROVER_is_fresh(__CPROVER_return_value.p, n + 1)) \
   __CPROVER_ensures(__g_vec_b < n ==> __CPROVER_return_value.p[__g_vec_b] == s[__g_vec_b]) \
-  { str r; r.p = (char *)cxx_alloc(n + 1); r.n = n; r.cap = n; \
+  { str r; r.p = (char *)cxx_alloc(cxx_str_bytes(n)); r.n = n; r.cap = n; \
     for (uint64_t __k = 0; __k < n; ++__k) r.p[__k] = s[__k]; r.p[n] = 0; return r; } \
   static inline str str_from_cstr(const char *s) \
   __CPROVER_requires(__CPROVER_r_ok(s, 1)) \
@@ -293,22 +302,29 @@ uint64_t __g_vec_b;   /* ghost: arbitrary-but-fixed byte index observed by the c
   { return str_from_n(s, cxx_strlen(s)); } \
   static inline str str_clone(str o) { return str_from_n(o.p, o.n); } \
   static inline str str_filled(uint64_t n, char c) \
-  { str r; r.p = (char *)cxx_alloc(n + 1); r.n = n; r.cap = n; for (uint64_t __k = 0; __k < n; ++__k) r.p[__k] = c; r.p[n] = 0; return r; } \
+  { str r; r.p = (char *)cxx_alloc(cxx_str_bytes(n)); r.n = n; r.cap = n; for (uint64_t __k = 0; __k < n; ++__k) r.p[__k] = c; r.p[n] = 0; return r; } \
   static inline void str_clear(str *v) { v->n = 0; } \
   static inline void str_assign_range(str *v, const char *first, const char *last) { *v = str_from_n(first, (uint64_t)(last - first)); } \
   static inline void str_append_n(str *v, const char *s, uint64_t m) \
-  { char *np = (char *)cxx_alloc(v->n + m + 1); \
+  { char *np = (char *)cxx_alloc(cxx_str_bytes(v->n + m)); \
     for (uint64_t __k = 0; __k < v->n; ++__k) np[__k] = v->p[__k]; \
     for (uint64_t __k = 0; __k < m; ++__k) np[v->n + __k] = s[__k]; \
-    np[v->n + m] = 0; v->p = np; v->n += m; } \
-  static inline void str_push_back(str *v, char c) { str_append_n(v, &c, 1); } \
+    np[v->n + m] = 0; v->p = np; v->n += m; v->cap = v->n; } \
+  static inline void str_push_back(str *v, char c) \
+  { /* amortised like std::string: storage grows once to CXX_VEC_CAP bytes (a bound of the MODEL), then appends in place */ \
+    if (v->n + 1 >= v->cap) { \
+      CXX_MODEL_BOUND(v->n + 2 <= CXX_VEC_CAP); \
+      char *np = (char *)cxx_alloc(CXX_VEC_CAP); \
+      for (uint64_t __k = 0; __k < v->n; ++__k) np[__k] = v->p[__k]; \
+      v->p = np; v->cap = CXX_VEC_CAP; } \
+    v->p[v->n] = c; v->n = v->n + 1; v->p[v->n] = 0; } \
   static inline void str_append(str *v, str o) { str_append_n(v, o.p, o.n); } \
   static inline void str_append_cstr(str *v, const char *s) { str_append_n(v, s, cxx_strlen(s)); } \
   static inline void str_append_fill(str *v, uint64_t m, char c) { for (uint64_t __k = 0; __k < m; ++__k) str_push_back(v, c); } \
   static inline void str_pop_back(str *v) { CXX_ASSERT(v->n > 0, "pop_back on empty string"); v->n--; } \
   static inline void str_resize(str *v, uint64_t n) \
-  { char *np = (char *)cxx_alloc(n + 1); for (uint64_t __k = 0; __k < n; ++__k) np[__k] = (__k < v->n) ? v->p[__k] : 0; \
-    np[n] = 0; v->p = np; v->n = n; } \
+  { char *np = (char *)cxx_alloc(cxx_str_bytes(n)); for (uint64_t __k = 0; __k < n; ++__k) np[__k] = (__k < v->n) ? v->p[__k] : 0; \
+    np[n] = 0; v->p = np; v->n = n; v->cap = n; } \
   static inline _Bool str_eq_cstr(str a, const char *s) \
   { uint64_t m = cxx_strlen(s); if (m != a.n) return 0; for (uint64_t __k = 0; __k < m; ++__k) if (a.p[__k] != s[__k]) return 0; return 1; } \
   static inline str str_substr(str a, uint64_t pos, uint64_t cnt) \
@@ -318,6 +334,9 @@ uint64_t __g_vec_b;   /* ghost: arbitrary-but-fixed byte index observed by the c
   static inline strview strview_substr(strview a, uint64_t pos, uint64_t cnt) \
   { CXX_ASSERT(pos <= a.n, "string_view::substr position (throws out_of_range otherwise)"); \
     strview r; uint64_t m = a.n - pos; if (cnt < m) m = cnt; r.p = a.p + pos; r.n = m; return r; }
+/* s.rfind(lit, 0): 0 if s starts with lit, npos otherwise */
+static inline uint64_t cxx_rfind0_cstr(const char *p, uint64_t n, const char *lit)
+{ uint64_t m = cxx_strlen(lit); if (m > n) return (uint64_t)-1; for (uint64_t __k = 0; __k < m; ++__k) if (p[__k] != lit[__k]) return (uint64_t)-1; return 0; }
 static inline uint64_t cxx_find_char(const char *p, uint64_t n, char c, uint64_t from)
 { for (uint64_t __k = from; __k < n; ++__k) if (p[__k] == c) return __k; return (uint64_t)-1; }
 
